@@ -3,6 +3,7 @@
 // report what they do; and analyse emitted chunk files statically with acorn.
 //
 // stdin : {"jobs":[{"id", "dir", "entries":[rel path...], "sequences":[[entry index...]...],
+//                   "names":[entry point i exports the observers peek_<names[i]>, poke_<names[i]>],
 //                   "analyze":bool, "nocopy":bool, "publicPath":string}]}
 // stdout: {"results":[{"id", "runs":[{"seq", "trace":[[module, effect]...], "errors":[{where,name,message}],
 //                                     "after":[{entry, ns, peek}], "poked":[{entry, ns, peek}]}],
@@ -41,18 +42,33 @@ function snapshotValue(v) {
   return v
 }
 
-function snapshot(run, loaded) {
+// every exported binding of a namespace is read; a namespace object found inside (export * as ns) is read in turn
+function snapshotNS(run, where, ns, depth) {
+  const out = {}
+  let keys = []
+  try { keys = Object.keys(ns).sort() } catch (e) {
+    run.errors.push({ where: where + ':keys', name: String(e && e.name), message: String(e && e.message) })
+  }
+  for (const key of keys) {
+    try {
+      const v = ns[key]
+      if (v !== null && typeof v === 'object' && depth < 6) out[key] = snapshotNS(run, where + ':' + key, v, depth + 1)
+      else out[key] = snapshotValue(v)
+    } catch (e) {
+      out[key] = 'threw'
+      run.errors.push({ where: where + ':' + key, name: String(e && e.name), message: String(e && e.message) })
+    }
+  }
+  return out
+}
+
+function snapshot(run, loaded, job) {
   const out = []
   for (const [ei, ns] of loaded) {
-    const rec = { entry: ei, ns: {}, peek: null }
-    for (const key of Object.keys(ns).sort()) {
-      try { rec.ns[key] = snapshotValue(ns[key]) } catch (e) {
-        rec.ns[key] = 'threw'
-        run.errors.push({ where: 'ns:' + ei + ':' + key, name: String(e && e.name), message: String(e && e.message) })
-      }
-    }
-    if (typeof ns.peek === 'function') {
-      try { rec.peek = ns.peek() } catch (e) {
+    const rec = { entry: ei, ns: snapshotNS(run, 'ns:' + ei, ns, 0), peek: null }
+    const peek = ns['peek_' + (job.names || [])[ei]]
+    if (typeof peek === 'function') {
+      try { rec.peek = peek() } catch (e) {
         run.errors.push({ where: 'peek:' + ei, name: String(e && e.name), message: String(e && e.message) })
       }
     }
@@ -101,15 +117,16 @@ async function runSequence(job, seq, k) {
     }
   }
   await settle(run)
-  run.after = snapshot(run, loaded)
+  run.after = snapshot(run, loaded, job)
   for (const [ei, ns] of loaded) {
-    if (typeof ns.poke === 'function') {
-      try { ns.poke() } catch (e) {
+    const poke = ns['poke_' + (job.names || [])[ei]]
+    if (typeof poke === 'function') {
+      try { poke() } catch (e) {
         run.errors.push({ where: 'poke:' + ei, name: String(e && e.name), message: String(e && e.message) })
       }
     }
   }
-  run.poked = snapshot(run, loaded)
+  run.poked = snapshot(run, loaded, job)
   await settle(run)
   current = null
   delete run.tracked
